@@ -717,3 +717,51 @@ def stage_depths(fx, out, inputs, mem_ports=(), max_depth=4, context=None):
             for n in new:
                 todo.append((strip_subscripts(n), d + step))
     return res
+
+
+def pg_active(pyguards, env):
+    """Is a construct whose Python-level guards are `pyguards` built under the Python-level valuation `env` (name -> value)?  Each
+    guard text is evaluated by the checker's interpreter; a guard that mentions anything outside `env` is left open (counts as
+    satisfiable).  False only when some evaluable guard has the wrong polarity."""
+    from . import pyconst
+    for c, p in pyguards:
+        try:
+            node = ast.parse(c, mode="eval").body
+        except SyntaxError:
+            continue
+        names = {n.id for n in ast.walk(node) if isinstance(n, ast.Name)}
+        if not names or not names <= set(env):
+            continue
+        try:
+            v = pyconst.Interp(dict(env)).ev(node)
+        except Exception:       # noqa: not evaluable -> open
+            continue
+        if isinstance(v, (bool, int)) and bool(v) != p:
+            return False
+    return True
+
+
+def index_comprehension(comp, idx):
+    """Element `idx` (source text) of a list comprehension with one unfiltered generator over `enumerate(L)`, `range(len(L))`/`range(n)`
+    or `L` itself, as an expression node: `[f(s, i) for i, s in enumerate(L)][k]` is `f(L[k], k)`.  None when not of that shape."""
+    import copy
+    if not (isinstance(comp, ast.ListComp) and len(comp.generators) == 1 and not comp.generators[0].ifs):
+        return None
+    g = comp.generators[0]
+    sub = {}
+    it = g.iter
+    if isinstance(it, ast.Call) and norm(it.func) == "enumerate" and len(it.args) == 1 and isinstance(g.target, ast.Tuple) and \
+            len(g.target.elts) == 2 and all(isinstance(e, ast.Name) for e in g.target.elts):
+        sub[g.target.elts[0].id] = ast.parse(idx, mode="eval").body
+        sub[g.target.elts[1].id] = ast.parse(f"{norm(it.args[0])}[{idx}]", mode="eval").body
+    elif isinstance(it, ast.Call) and norm(it.func) == "range" and len(it.args) == 1 and isinstance(g.target, ast.Name):
+        sub[g.target.id] = ast.parse(idx, mode="eval").body
+    elif isinstance(it, ast.Name) and isinstance(g.target, ast.Name):
+        sub[g.target.id] = ast.parse(f"{it.id}[{idx}]", mode="eval").body
+    else:
+        return None
+
+    class S(ast.NodeTransformer):
+        def visit_Name(self, x):
+            return copy.deepcopy(sub[x.id]) if x.id in sub and isinstance(x.ctx, ast.Load) else x
+    return S().visit(copy.deepcopy(comp.elt))
